@@ -14,7 +14,8 @@ RULE = ("model framer (proved legal) and harness framer agree (framer-tie); libr
         "(partial on each tag, first partial 2^0..2^8, declared-huge chunks, every truncation, every first octet x selected second octets, random), "
         "under random source/consumer schedules; library-written literal / uncompressed-compressed packets vs model emit_partial/emit_fixed at "
         "chunk-boundary lengths, read back by the library; PacketParser value equality across framings. "
-        "non-trivial = distinct cases on which library = model and the direct predicate holds")
+        "non-trivial = distinct cases on which library = model and the direct predicate holds. "
+        "Added: the packet parser over packets (marker, one-pass signature, MDC, trust, user id, padding, literal) declared 1..70000 octets longer than the stream, in every length form of both formats: never handed out as a packet, and not a silent end; the honest length is accepted.")
 TRUSTED = [
     "model files: coq/theories/Frame/Framing.v; theorems coq/theories/Props/C17.v",
     "model files also Frame/BodyReader.v (PacketBodyReader as a state machine: 8 KiB buffer, Take-limited source, partial lengths) and Frame/PartialWriter.v (LiteralDataPartialGenerator as a staged producer), "
